@@ -310,10 +310,17 @@ pub fn run(ctx: &mut Ctx) {
             // one linked non-root term (alternating between the two lowest) is flagged obsolete and replaced as
             // well: flags must not influence the closure, whatever the record order
             {
+                // three flag shapes in rotation: obsolete + replaced, obsolete only, replaced only
                 let k = 2 + di % 2;
                 if k < d.n {
-                    base.terms[k].obsolete = true;
-                    base.terms[k].replacement = Some(base.terms[(k + 1) % d.n].id);
+                    match (di / 2) % 3 {
+                        0 => {
+                            base.terms[k].obsolete = true;
+                            base.terms[k].replacement = Some(base.terms[(k + 1) % d.n].id);
+                        }
+                        1 => base.terms[k].obsolete = true,
+                        _ => base.terms[k].replacement = Some(base.terms[(k + 1) % d.n].id),
+                    }
                 }
             }
             for version in [1u8, 2, 3] {
@@ -334,6 +341,17 @@ pub fn run(ctx: &mut Ctx) {
                 let mut o = EncOpts::v(version);
                 o.omit_empty_parent_records = true;
                 variants.push((pf.clone(), o, "no parent record for parentless terms"));
+                // layouts the format table does not rule out but the writer never produces: one parent record per
+                // link, and a parent id listed twice inside a record. What a decoder does with them is not specified
+                // (refusing is fine); an ontology it returns must be consistent with the links it reports itself
+                for (split, repeat, what) in [(true, false, "one parent record per link"), (false, true, "first parent id repeated at the end of the record"), (true, true, "one parent record per link, each id twice")] {
+                    let mut o = EncOpts::v(version);
+                    o.split_parent_records = split;
+                    o.repeat_parent_ids = repeat;
+                    let bytes = encode::encode(&pf, &o);
+                    ctx.transitions(pf.n_steps());
+                    super::c08::self_consistent_or_refused(ctx, &bytes, &format!("binary v{version}, {what}"), &|| json!({"facts": pf.to_json(), "format_version": version, "layout": what}));
+                }
                 for (f, o, what) in variants {
                     ctx.transitions(f.n_steps());
                     let bytes = encode::encode(&f, &o);
@@ -380,10 +398,17 @@ pub fn run(ctx: &mut Ctx) {
                 }
             }
             {
+                // three flag shapes in rotation: obsolete + replaced, obsolete only, replaced only
                 let k = 2 + di % 2;
                 if k < d.n {
-                    base.terms[k].obsolete = true;
-                    base.terms[k].replacement = Some(base.terms[(k + 1) % d.n].id);
+                    match (di / 2) % 3 {
+                        0 => {
+                            base.terms[k].obsolete = true;
+                            base.terms[k].replacement = Some(base.terms[(k + 1) % d.n].id);
+                        }
+                        1 => base.terms[k].obsolete = true,
+                        _ => base.terms[k].replacement = Some(base.terms[(k + 1) % d.n].id),
+                    }
                 }
             }
             let r = RefOnt::derive(&base);
@@ -406,6 +431,12 @@ pub fn run(ctx: &mut Ctx) {
                 let mut om = JaxOpts::default();
                 om.distractors = vec![jax::Distractor::IsATrailingModifier];
                 variants.push((base.clone(), om, false, "is_a lines with a trailing modifier {source=...}"));
+                for (d, what) in [(jax::Distractor::DuplicateIsA, "an is_a line occurs twice in a stanza"), (jax::Distractor::IsATextInValues, "the text 'is_a: HP:...' inside def / comment values")] {
+                    let mut od = JaxOpts::default();
+                    od.distractors = vec![d];
+                    variants.push((base.clone(), od.clone(), false, what));
+                    variants.push((base.clone(), od, true, what));
+                }
                 variants.push((base.clone(), o, true, "other tag lines between and around the is_a lines (transitive loader)"));
             }
             for (f, o, transitive, what) in variants {
@@ -476,13 +507,53 @@ pub fn run(ctx: &mut Ctx) {
             ctx.sample(|| json!({"dag": d.describe(), "ids": &POOL[..n], "roots": n}));
         }
     }
+    // ---- very deep shapes (beyond 512 / 1000 / 1024 / 2048 levels): ancestors-first and descendants-first supply
+    // order through the Builder, descendants-first through the decoder
+    {
+        let family = super::common::very_deep_family();
+        ctx.space("very-deep/builder+binary", &format!("{} shapes (chains of 1100 and 2100 terms with a shortcut, a ladder of 14 levels) x ascending / descending supply order via Builder, descending via binary v3: whole observation against the model", family.len()));
+        for (base, what) in &family {
+            if !ctx.take() {
+                continue;
+            }
+            ctx.state();
+            ctx.nontrivial();
+            let r = RefOnt::derive(base);
+            let mut desc = base.clone();
+            desc.terms.reverse();
+            desc.edges.reverse();
+            for (f, oname) in [(base, "ascending (ancestors first)"), (&desc, "descending (descendants first)")] {
+                ctx.transitions(f.n_steps());
+                match drive::build(f, Mode::Minimal) {
+                    Ok(ont) => {
+                        check_against_model(ctx, &ont, &r, Mode::Minimal, "builder", &|| json!({"shape": what, "order": oname}));
+                    }
+                    Err(e) => {
+                        ctx.exec();
+                        ctx.violation("Builder", "[builder] construction fails on valid facts", json!({"shape": what, "order": oname, "observed": e}));
+                    }
+                }
+            }
+            ctx.transitions(desc.n_steps());
+            match drive::from_bytes(&encode::encode(&desc, &EncOpts::v(3))) {
+                Ok(Ok(ont)) => {
+                    check_against_model(ctx, &ont, &r, Mode::Defaults, "binary v3", &|| json!({"shape": what, "order": "descending"}));
+                }
+                other => {
+                    ctx.exec();
+                    ctx.violation("Ontology::from_bytes", "[binary v3] rejects or panics on a file laid out as documented", json!({"shape": what, "observed": format!("{:?}", other.map(|r| r.map(|_| ())))}));
+                }
+            }
+            ctx.sample(|| json!({"shape": what, "n_terms": base.terms.len()}));
+        }
+    }
     // ---- sequences of ontologies built one after the other at the same address
     super::common::ontology_sequences(ctx, "builder", Mode::Minimal, &mut super::common::obs_oracle(Mode::Minimal));
     // ---- 6. (last, because of the garbage it leaves in the allocator) one very large ontology: 70 000 terms in heap shape (term k is_a term k/2), supplied in
     // ascending order and in an order that interleaves the two halves; beyond every 16-bit table size
     {
-        ctx.space("huge/heap-70000", "70 000 terms, term k is_a term k/2 (ids = positions 1..=70000), Builder in ascending and in interleaved-halves order: whole observation against the model");
-        for variant in 0..2 {
+        ctx.space("huge/heap-70000", "70 000 terms, term k is_a term k/2 (ids = positions 1..=70000), Builder in ascending and in interleaved-halves order, and decoded from a v3 file (HP:118 is term 118 of the heap) in descending record order: whole observation against the model");
+        for variant in 0..3 {
             if !ctx.take() {
                 continue;
             }
@@ -490,7 +561,11 @@ pub fn run(ctx: &mut Ctx) {
             ctx.nontrivial();
             let n = 70_000u32;
             let mut f = Facts::default();
-            let order: Vec<u32> = if variant == 0 { (1..=n).collect() } else { (1..=n / 2).flat_map(|k| [k, k + n / 2]).collect() };
+            let order: Vec<u32> = match variant {
+                0 => (1..=n).collect(),
+                1 => (1..=n / 2).flat_map(|k| [k, k + n / 2]).collect(),
+                _ => (1..=n).rev().collect(),
+            };
             for k in &order {
                 f.terms.push(Facts::term(*k, &format!("T{k}")));
             }
@@ -499,6 +574,24 @@ pub fn run(ctx: &mut Ctx) {
             }
             let r = RefOnt::derive(&f);
             ctx.transitions(f.n_steps());
+            if variant == 2 {
+                f.version = (2024, 2, 29);
+                f.edges.reverse();
+                match drive::from_bytes(&encode::encode(&f, &EncOpts::v(3))) {
+                    Ok(Ok(ont)) => {
+                        check_against_model(ctx, &ont, &RefOnt::derive(&f), Mode::Defaults, "binary v3", &|| json!({"shape": "heap of 70000 terms: term k is_a term k/2", "record_order": "descending"}));
+                    }
+                    other => {
+                        ctx.exec();
+                        ctx.violation("Ontology::from_bytes", "[binary v3] rejects or panics on a file laid out as documented", json!({"shape": "heap of 70000 terms", "observed": format!("{:?}", other.map(|r| r.map(|_| ())))}));
+                    }
+                }
+                ctx.sample(|| json!({"shape": "heap", "n_terms": n, "variant": "decoded from binary v3"}));
+                drop(r);
+                drop(f);
+                crate::ctx::trim_heap();
+                continue;
+            }
             match drive::build(&f, Mode::Minimal) {
                 Err(e) => {
                     ctx.exec();
